@@ -518,6 +518,70 @@ def run(p, led, tier):
             led.fail("C10-R6", key, f"{rel}:{lst.lineno}", f"{badre[0]} — the signature no longer matches when embedded in other text")
         else:
             led.ok("C10-R6", key, f"{rel}:{lst.lineno}", f"{nreg} regex(es) parsed: no ^ $ \\A \\Z anchors, no look-behind")
+    _depth_table(p, led)
+
+
+def _depth_table(p, led):
+    """C10-R7: the shipped JSON structure validator rejects exactly the documents nested deeper than its max_depth —
+    decided by interpreting validate() on every JSON shape of depth ≤ 4 and width ≤ 2 built from scalars, empty and
+    non-empty arrays / objects (json.loads of a literal text is folded by the host parser)"""
+    import json as _json
+    from ..fdai import Interp, Obj, PyRaise, ExcVal, explore, Imprecise
+    cands = [ci for lst in p.classes.values() for ci in lst if ci.module.rel == IN and "validate" in ci.methods and "__init__" in ci.methods
+             and any(a.arg == "max_depth" for a in ci.methods["__init__"].node.args.args)]
+    led.rule("C10-R7", "the JSON structure validator rejects a document exactly when its nesting (empty containers included) is deeper than max_depth", 0)
+    if not cands:
+        led.info("no shipped validator takes a max_depth: C10-R7 has no instance")
+        return
+    val = cands[0]
+    vm = val.methods["validate"]
+
+    def shapes(d):
+        if d == 0:
+            return [1]
+        out = []
+        for c in shapes(d - 1):
+            out += [[c], {"k": c}, [1, c]]
+        return out
+    docs = [1, [], {}] + [x for d in range(1, 5) for x in shapes(d)] + [[[]], [[[]]], {"a": {}}, {"a": {"b": {}}}, [1, [2, [3, []]]], [[], 1], {"a": 1, "b": {"c": []}}, [[[[[]]]]], [[[[{}]]]]]
+
+    def depth(x):
+        if isinstance(x, dict):
+            return 1 + max([depth(v) for v in x.values()] or [0])
+        if isinstance(x, list):
+            return 1 + max([depth(v) for v in x] or [0])
+        return 0
+    bad, n = [], 0
+    for md in (0, 1, 2, 3):
+        for doc in docs:
+            text = _json.dumps(doc)
+
+            def go(o, _md=md, _text=text):
+                it = Interp(p, o)
+                it.ext_stubs["json.loads"] = lambda interp, args, kwargs: _json.loads(args[0])
+                v = it.instantiate(val, [], dict(max_depth=_md))
+                try:
+                    r = it.call_fi(vm, [v, _text], {})
+                except PyRaise as e:
+                    return ("raise", repr(e.exc))
+                return ("ret", r[0] if isinstance(r, tuple) else r)
+            try:
+                outs = [r for _, r in explore(go, max_paths=50)]
+            except Imprecise as e:
+                led.undecided("C10-R7", f"{val.name}.validate ▸ depth table", where(vm, vm.node), f"not interpretable: {e}")
+                return
+            for kind, ok_ in outs:
+                n += 1
+                want = depth(doc) <= md
+                if kind == "raise":
+                    bad.append(f"max_depth={md}, document {text}: raises {ok_}")
+                elif ok_ is not want:
+                    bad.append(f"max_depth={md}, document {text} (nesting {depth(doc)}): {'accepted' if ok_ else 'rejected'}")
+    key = f"{val.name}.validate ▸ accepted ⇔ nesting ≤ max_depth"
+    if bad:
+        led.fail("C10-R7", key, where(vm, vm.node), f"{len(bad)} of {n} cell(s), e.g. {bad[0]}", path=bad[:8], witness="InnateImmunity(validators=[JSONValidator(max_depth=10)]).check('[' * 40 + ']' * 40) is allowed")
+    else:
+        led.ok("C10-R7", key, where(vm, vm.node), f"{n} cells: {len(docs)} documents (depth ≤ 5, empty and non-empty arrays / objects) × max_depth 0–3")
 
 
 def _anchored(pattern):
